@@ -73,6 +73,7 @@ type XEntry struct {
 	PodSel  world.Sel           `json:"podSel"`
 	All     bool                `json:"all"`
 	PP      map[string][]int    `json:"pp"`
+	Raw     map[string][][2]int `json:"raw"`
 	Names   map[string][]string `json:"names"` // protocol -> named ports in the potential connection
 	Aligned bool                `json:"aligned"`
 }
@@ -280,6 +281,7 @@ func xEntries(data []connlist.XgressExposureData, w *world.World, c *world.Conc)
 			m[string(proto)] = rs
 		}
 		e.PP, e.Aligned = abstractConn(e.All, m, w, c)
+		e.Raw = rawRanges(m)
 		for _, pr := range Protos {
 			e.Names[pr] = []string{}
 		}
